@@ -37,10 +37,14 @@ def spec(data: bytes):
     return ("ok", b"".join(lines[: first + 1]), b"".join(lines[first + 1: end]), b"".join(lines[end:]))
 
 
-def one_case(ctx, kind, data, do_model=True):
-    res = loaders.real_load(kind, data)
+PRELOAD = b"old header 'x'\n// DDBEGIN\n<a old=1> 'o'\n// DDEND\nold footer \"y\"\n"
+
+
+def one_case(ctx, kind, data, do_model=True, reused=False):
+    # `reused`: the loader object has loaded another file (with markers) before — what is protected depends on THIS file only
+    res = loaders.real_load(kind, data, preload=PRELOAD if reused else None)
     sp = spec(data)
-    case = dict(splitter=kind, data=enc_bytes(data))
+    case = dict(splitter=kind, data=enc_bytes(data), reused_object=reused)
     if do_model and kind in loaders.MODELLED:
         ctx.expect("load", loaders.load_cmd(kind, data), loaders.enc_load(res), case)
     else:
@@ -165,9 +169,11 @@ def run(ctx) -> int:
     proof = common.proof_stage(ctx.pid)
     protected_through_runs(ctx)
     kf, kk = (3, 5) if ctx.thorough else (3, 4)
-    for data in arrangements(kf, kk, ctx.rng, ctx.thorough):
+    for i, data in enumerate(arrangements(kf, kk, ctx.rng, ctx.thorough)):
         for kind in loaders.KINDS:
             one_case(ctx, kind, data)
+            if i % 7 == 0:
+                one_case(ctx, kind, data, reused=True)
     ctx.exhaustive.append(f"all arrangements of <= {kf} lines x 7 kinds x 8 terminators for <= 2 lines, 3 (quick) or a 25% sample of 8 (thorough) for 3 lines (+unterminated last line) x 5 splitters; "
                           f"all kind sequences of <= {kk} lines")
     error_path(ctx, 8 if ctx.thorough else 4)
